@@ -27,6 +27,7 @@ func runC02(c *Ctx) {
 	c.Rule("O2.9", "the composite reports 'finished' only from its last part: every path of compositeSchedule.Next that returns a part's ok=false (not the recursive retry) proves through the comparisons taken on it that one part was left when that part's Next was called (len(scheds) read in the same critical section, minus startNext shifts, <= 1)")
 	c.Rule("O2.10", "state is published before the started flag: in a schedule whose methods read fields after asking IsStarted(), every function that calls MarkStarted() writes those fields (directly or in the closure it gives to startOnce.Do) before the call - a concurrent Left() that sees 'started' must not see the state of the constructor")
 	c.Rule("O2.11", "start state is read only after the start: a field that is written inside a startOnce.Do closure (the start / finish time) is read in a method only after that method's own startOnce.Do, or on the edge where IsStarted() is true - a drained or empty schedule that was never started must not compute its finish time from the zero start time")
+	c.Rule("O2.12", "a schedule object belongs to one user: no package-level variable of pandora's production code holds a core.Schedule (a schedule carries its start flag, start time and token index - two profiles built from one object share them), and no function of core/schedule returns as its schedule a value read from a package-level variable")
 	c.Rule("O2.8", "doAtSchedule.Left clamps: returns 0 on the n-i < 0 edge and n-i otherwise")
 	P := c.P
 	sp := P.SSAPkg("core/schedule")
@@ -594,6 +595,8 @@ func runC02(c *Ctx) {
 	}
 	// ---------------- O2.10
 	c02PublishBeforeStarted(c, pkgFns)
+	// ---------------- O2.12
+	c02NoSharedSchedule(c, pkgFns)
 	// ---------------- O2.11
 	c02ReadAfterStart(c, "O2.11", pkgFns)
 	// ---------------- O2.7
@@ -1297,4 +1300,84 @@ func onlyFromClosures(g *ssa.Function, isStart func(cg *ssa.Function) bool, dept
 		}
 	}
 	return true
+}
+
+// c02NoSharedSchedule decides O2.12.
+func c02NoSharedSchedule(c *Ctx, pkgFns []*ssa.Function) {
+	P := c.P
+	cp := P.Pkg("core")
+	if cp == nil {
+		c.Anchor("O2.12", "package core")
+		return
+	}
+	tn, _ := cp.Types.Scope().Lookup("Schedule").(*types.TypeName)
+	if tn == nil {
+		c.Anchor("O2.12", "core.Schedule")
+		return
+	}
+	iface, _ := tn.Type().Underlying().(*types.Interface)
+	if iface == nil {
+		c.Anchor("O2.12", "core.Schedule is an interface")
+		return
+	}
+	isSched := func(t types.Type) bool {
+		if types.Identical(t, tn.Type()) {
+			return true
+		}
+		if _, isI := t.Underlying().(*types.Interface); isI {
+			return false // any / error ...: decided where a value is stored, not by the variable's type
+		}
+		return types.Implements(t, iface) || types.Implements(types.NewPointer(t), iface)
+	}
+	nGlobals, nSched := 0, 0
+	for _, pk := range P.Root {
+		if !IsProdPkg(pk.PkgPath) {
+			continue
+		}
+		sp := P.SSA.Package(pk.Types)
+		if sp == nil {
+			continue
+		}
+		for _, m := range sp.Members {
+			g, ok := m.(*ssa.Global)
+			if !ok || !IsProdFile(P.File(g.Pos())) {
+				continue
+			}
+			nGlobals++
+			et := g.Type().Underlying().(*types.Pointer).Elem()
+			if isSched(et) {
+				nSched++
+				c.Bad("O2.12", "global:"+pk.PkgPath+"."+g.Name(), g.Pos(), "package-level variable "+g.Name()+" holds a schedule: every profile that uses it shares its start flag, start time and token index")
+			}
+		}
+	}
+	c.Check(nSched == 0, "O2.12", "no-package-level-schedule", 0, fmt.Sprintf("%d package-level variables in production packages, %d hold a schedule", nGlobals, nSched))
+	c.Floor("O2.12", "package-level variables inspected", nGlobals, 20)
+	// constructors return what they made
+	nRet := 0
+	for _, g := range pkgFns {
+		res := g.Signature.Results()
+		for i := 0; i < res.Len(); i++ {
+			if !isSched(res.At(i).Type()) {
+				continue
+			}
+			for _, b := range g.Blocks {
+				r, ok := b.Instrs[len(b.Instrs)-1].(*ssa.Return)
+				if !ok || i >= len(r.Results) {
+					continue
+				}
+				nRet++
+				fromGlobal := DerivesAny(r.Results[i], false, func(v ssa.Value) bool {
+					u, ok := v.(*ssa.UnOp)
+					if !ok {
+						return false
+					}
+					_, isG := u.X.(*ssa.Global)
+					return isG
+				})
+				c.Check(!fromGlobal, "O2.12", fk(g)+":returns-its-own-schedule", r.Pos(), "the schedule returned is read from a package-level variable: all callers get the same object")
+			}
+		}
+	}
+	c.Floor("O2.12", "returns of a schedule in core/schedule", nRet, 8)
 }
